@@ -449,6 +449,20 @@ pub fn consistent_scripts(b: &[u8], lay: &Layout) -> Vec<(String, Vec<Edit>)> {
     let mut out: Vec<(String, Vec<Edit>)> = vec![];
     let field = |n: &str| lay.fields.iter().find(|f| f.name == n);
     let comp = |n: &str| lay.components.iter().find(|c| c.0 == n);
+    // ---- the field modulus the proof claims (it feeds the security estimate before anything else is checked)
+    if let Some((_, lo, ll, ps, pe)) = comp("modulus") {
+        let n = pe - ps;
+        for (what, low) in [("0", vec![0u8]), ("1", vec![1]), ("2", vec![2]), ("255", vec![255]), ("2^16-1", vec![255, 255]), ("2^24", vec![0, 0, 0, 1]), ("2^32-1", vec![255, 255, 255, 255])] {
+            if low.len() <= n {
+                let mut v = vec![0u8; n];
+                v[..low.len()].copy_from_slice(&low);
+                out.push((format!("context: field modulus replaced by {what} (same length)"), vec![Edit::Splice { off: *ps, remove: n, insert: v }]));
+            }
+            out.push((format!("context: field modulus replaced by {what} (shortest encoding, length fixed)"), vec![Edit::Set { off: *lo, len: *ll, value: low.len() as u64 }, Edit::Splice { off: *ps, remove: n, insert: low.clone() }]));
+        }
+        out.push(("context: field modulus of length 0".into(), vec![Edit::Set { off: *lo, len: *ll, value: 0 }, Edit::Splice { off: *ps, remove: n, insert: vec![] }]));
+        out.push(("context: field modulus of 255 bytes".into(), vec![Edit::Set { off: *lo, len: *ll, value: 255 }, Edit::Splice { off: *ps, remove: n, insert: vec![0xffu8; 255] }]));
+    }
     // ---- FRI layers
     if let Some(nlf) = field("fri.num_layers") {
         let nl = b[nlf.off] as usize;
